@@ -126,7 +126,6 @@ func VerifApplyURL(c config, q url.Values) (config, error) {
 	return c, err
 }
 
-func VerifSettingsMu() interface{}                 { return &settingsMu }
 func VerifSetConfig(fname string, u url.URL) error { return setConfig(fname, u) }
 func VerifRemoveConfig(fname, name string) error   { return removeConfig(fname, name) }
 
